@@ -9,7 +9,7 @@ from .. import report as R
 from ..report import RuleSpec
 from .. import codec as C
 from .. import sym
-from .common import unparse, call_name, local_defs
+from .common import as_dict, unparse, call_name, local_defs
 
 CTL_NAME = "_sa_controls"
 
@@ -27,8 +27,8 @@ def _frame_columns(ctx) -> Tuple[List[str], ast.AST]:
     M = ctx.M
     init = M.fn(PATTERN + ".__init__")
     for n in walk_no_nested(init.node):
-        if isinstance(n, ast.Call) and call_name(n) == "DataFrame" and n.args and isinstance(n.args[0], ast.Dict):
-            return [C.const_str(k) for k in n.args[0].keys], n
+        if isinstance(n, ast.Call) and call_name(n) == "DataFrame" and n.args and as_dict(n.args[0]) is not None:
+            return [C.const_str(k) for k in as_dict(n.args[0]).keys], n
     raise AnalysisError("Pattern.__init__: frame construction not found")
 
 
